@@ -793,6 +793,20 @@ func (fc *FnCtx) runLoop(st *State, lp loopParts) []Outcome {
 	}
 	// 3. havoc + assume invariants
 	h := st
+	// objects that exist before the loop (their cells may not be materialised yet: a map that
+	// is still empty has no arrays in the environment)
+	knownRec := map[string]bool{}
+	for r := range st.fresh {
+		knownRec[r] = true
+	}
+	for k, v := range st.env {
+		if i := strings.Index(k, "."); i > 0 {
+			knownRec[k[:i]] = true
+		}
+		if v.Rec != "" {
+			knownRec[v.Rec] = true
+		}
+	}
 	for _, k := range sortedKeysVal(mod) {
 		v := mod[k]
 		old, had := st.env[k]
@@ -801,7 +815,13 @@ func (fc *FnCtx) runLoop(st *State, lp loopParts) []Outcome {
 		}
 		// records/buffers allocated inside the body are local to an iteration
 		if (!had) && (strings.HasPrefix(k, "rec_") || strings.HasPrefix(k, "buf_") || strings.HasPrefix(k, "map_") || strings.HasPrefix(k, "scan_")) {
-			continue
+			rec := k
+			if i := strings.Index(k, "."); i > 0 {
+				rec = k[:i]
+			}
+			if !knownRec[rec] {
+				continue
+			}
 		}
 		switch old.S {
 		case SInt, SBool, SStr, SSL, SIL:
